@@ -33,6 +33,7 @@ var checks = map[string]func(*vk.Run){
 	"C20":      kms.RunC20,
 	"X-CLI":    ka.RunCLI,
 	"X-EFLAGS": ka.RunEndorseFlags,
+	"X-SYSTEM": ka.RunSystem,
 	"C16":      disc.RunC16,
 	"C19":      pl.RunC19,
 	"C06":      gold.RunC06,
